@@ -179,7 +179,8 @@ def run(ctx):
             want = I.simp_bits(byte(lo + 2) + byte(lo + 1) + byte(lo))
             for who, o in (("raw", raw), ("kaitai", kai)):
                 x = o.attrs.get(name)
-                ok = isinstance(x, AInt) and I.simp_bits(x.msb_first(24)) == want and all(I.simp(b) == F(0, 0) for b in x.bits[24:])
+                # (a two's-complement value whose sign bit is a wire bit is negative for half of the frames: not "the 24 bits")
+                ok = isinstance(x, AInt) and not getattr(x, "signed", False) and I.simp_bits(x.msb_first(24)) == want and all(I.simp(b) == F(0, 0) for b in x.bits[24:])
                 ctx.ob("ipsc/values", f"{ici.qualname} | {name},{who}", ok, f"{describe(I, x)}; expected the 24 bits of octets {lo}..{lo + 2}", raw_fn.loc)
         for who, o in (("raw", raw), ("kaitai", kai)):
             x = o.attrs.get("color_code")
@@ -326,7 +327,7 @@ def burst_agree(ctx, repo, kci, ici):
                 fbad.append(f"{who}: the attached frame's payload is replaced by {describe(I, pl)} — serialising re-encodes the parsed burst instead of returning the received octets "
                             f"(a payload with FEC-correctable errors or non-canonical bits cannot be reproduced)")
                 continue
-            out = I.call(repo.find_method(fr_.cls, "as_ipsc_bytes"), [fr_], {})
+            out = guarded(I, repo.find_method(fr_.cls, "as_ipsc_bytes"), fr_)
             ob = bits_of_any(I, out)
             wb = I.simp_bits(wire.items)
             if ob is None or len(ob) != len(wb):
